@@ -22,7 +22,7 @@ pub fn prop() -> HistProp {
             long(p, t)
         },
         cfgs: cfg_strategy,
-        quick: 1500,
+        quick: 4000,
         thorough: 30000,
         mk: |_, _, _| Box::new(C03 { nontrivial: false }),
         extra: None,
